@@ -483,11 +483,12 @@ Section Stream.
 
   (** "unwritten chunks read as the fill value": a page map whose pages all repeat the fill element *)
   Lemma fill_stream : forall (v : Z -> page) (fe : list Z),
-    (forall cn off b, (nt | off) -> 0 <= b < nt -> znth (v cn) (off + b) = znth fe b) ->
+    (forall cn off b, 0 <= cn < npg -> 0 <= off -> off + nt <= csize -> (nt | off) -> 0 <= b < nt ->
+        znth (v cn) (off + b) = znth fe b) ->
     forall q, 0 <= q < total * nt -> stream_of v q = znth fe (q mod nt).
   Proof.
     intros v fe Hf q Hq. destruct (q_decomp q Hq) as (_ & Bb & Be).
-    destruct (loc_facts (q / nt) Be) as (_ & _ & _ & Dv). unfold stream_of. apply Hf; auto.
+    destruct (loc_facts (q / nt) Be) as (C1 & O1 & O2 & Dv). unfold stream_of. apply Hf; auto.
   Qed.
 End Stream.
 
@@ -529,7 +530,8 @@ Lemma chunked_refines_stream_lemma2 : forall nt dd, geometry_ok nt dd ->
        forall i, 0 <= i < r * nt -> znth out i = stream_of nt dd (view (fst st) (snd st)) (e * nt + i)) /\
   (* unwritten chunks read as the fill value: pages that repeat the fill element give a stream that repeats it *)
   (forall (v : Z -> page) (fe : list Z),
-     (forall cn off b, (nt | off) -> 0 <= b < nt -> znth (v cn) (off + b) = znth fe b) ->
+     (forall cn off b, 0 <= cn < npg dd -> 0 <= off -> off + nt <= csize nt dd -> (nt | off) -> 0 <= b < nt ->
+        znth (v cn) (off + b) = znth fe b) ->
      forall q, 0 <= q < total dd * nt -> stream_of nt dd v q = znth fe (q mod nt)).
 Proof.
   intros nt dd (Hnt & Hne & Hv & Hb). split; [|split; [|split]].
